@@ -57,7 +57,7 @@ def _self_reads(prog: Program, ci: ClassInfo, func: Func, seen: Optional[Set[str
 
 def run(prog: Program, rep, thorough: bool) -> None:
     A.reset()
-    rep.rule('C13.R1', 'magnitude written only at construction', 1 + 5 + 3)
+    rep.rule('C13.R1', 'magnitude written only at construction', 1 + 5 + 3 + 2)
     rep.rule('C13.R2', 'comparison dunders compare the magnitude only', 5 + 1)
     rep.rule('C13.R3', 'hash reads a subset of what equality reads', 1)
     rep.rule('C13.R4', 'foreign units raise', 14)
@@ -162,6 +162,51 @@ def run(prog: Program, rep, thorough: bool) -> None:
             rep.fail('C13.R1', umod.path, m.node.lineno, m.qualname, opname,
                      f'{opname} changes the magnitude: operand {st.heap[q.oid].get(MAG)!r}, result {mags!r}')
 
+    # indirect routes: a function that re-runs __init__ on a live quantity, a conversion that recomputes the magnitude
+    from ..effects import Effects, reachable
+    eng = Effects(prog)
+    for fq, sm in eng.summaries.items():
+        f = eng.funcs[fq]
+        for (o, fld), e in sm.effects.items():
+            if fld != MAG or o[0] not in ('param', 'self', 'global'):
+                continue
+            if f is init and o[0] == 'self':
+                continue
+            if e.func == f.qualname and not e.chain:
+                continue            # the direct store itself: judged by the inventory above
+            if f.cls is not None and f.cls.name in hier_names or f.module is umod:
+                rep.fail('C13.R1', f.module.path, f.node.lineno, f.qualname, f'indirect:{o[0]}',
+                         f'{f.qualname} rewrites the magnitude of an existing quantity through a call: `{e.text}` in {e.func}',
+                         list(e.chain))
+    conv_reach = reachable(eng, [conv])
+    forbidden = [eng.funcs[q].qualname for q in conv_reach
+                 if eng.funcs[q].name in ('to_raw', 'from_raw', 'get_in', '__init__') and eng.funcs[q] is not conv
+                 and eng.funcs[q].cls is not None and eng.funcs[q].cls.name in hier_names]
+    new_objs = [n for n in ast.walk(conv.node) if isinstance(n, ast.Call) and (
+        norm(n.func) in ('self.__class__', 'type(self)') or (isinstance(n.func, ast.Name) and n.func.id in dims))]
+    if forbidden or new_objs:
+        rep.fail('C13.R1', umod.path, conv.node.lineno, conv.qualname, 'convert-recomputes',
+                 f'convert (and <<, PreferredUnits.<slot>(quantity)) goes through {sorted(set(forbidden)) or "a new quantity built from a converted value"}: '
+                 f'the magnitude is recomputed by a round trip through the new unit instead of being kept (rounding drift; '
+                 f'tangent-based units fold angles beyond 90 degrees)')
+    else:
+        rep.ok('C13.R1', conv.where, 'convert reaches no conversion routine and builds no new quantity: the magnitude is kept bit for bit')
+    memo = []
+    for c in hierarchy:
+        for nm, m in list(c.methods.items()) + list(c.setters.items()):
+            for d in m.decorators:
+                if d.split('.')[-1] in ('lru_cache', 'cache', 'cached_property'):
+                    memo.append((c, m, d))
+    if memo:
+        c, m, d = memo[0]
+        rep.fail('C13.R4' if m.name in ('get_in', 'from_raw', 'to_raw') else 'C13.R1', umod.path, m.node.lineno, m.qualname,
+                 f'memo:{m.name}',
+                 f'{m.qualname} is memoised with @{d}: the cache is keyed by __hash__/__eq__, which read the base-unit magnitude '
+                 f'only, so a quantity of another dimension (or in another display unit) with the same magnitude is answered '
+                 f'from the cache instead of raising / being converted')
+    else:
+        rep.ok('C13.R1', f'{umod.path}:{base.node.lineno}', 'no memoising decorator on the quantity classes')
+
     # ---- R2 ----------------------------------------------------------------------------------
     want = {'__eq__': ('nz', False), '__lt__': ('pos', 'b-a'), '__gt__': ('pos', 'a-b'), '__le__': ('nonneg', 'b-a'),
             '__ge__': ('nonneg', 'a-b')}
@@ -183,8 +228,7 @@ def run(prog: Program, rep, thorough: bool) -> None:
             try:
                 r, st = ev.call_value(m, [other], self_val=q, st=st)
             except Undecided as exc:
-                problems.append(f'not readable: {exc}')
-                continue
+                raise AnalysisError(f'{name}: {exc}') from exc
             if not isinstance(r, Cond) or not isinstance(r.a, Const) or not isinstance(r.b, Const):
                 problems.append(f'vs {other_kind}: result {r!r}')
                 continue
